@@ -703,6 +703,36 @@ def ob_glue_x86():
 # ---------------------------------------------------------------------------------------------------------------
 # Fq / Fr level: hash_reduce, byte I/O, compare
 # ---------------------------------------------------------------------------------------------------------------
+def asm_specs(I):
+    """configuration A: the x86-64 assembly kernels behind BigInt<384> / FpBase<384>, by the specifications C03 proves for them"""
+    M = (1 << 384) - 1
+
+    def rd(p_):
+        return I.load_bytes(p_.obj, p_.off, 48)
+
+    def wr(p_, v):
+        v = eir.simp(v)
+        for i in range(6):
+            I.store_cell(p_.obj, p_.off + 8 * i, 8, (v >> (64 * i)) & ((1 << 64) - 1) if is_conc(v) else eir.simp(z3.Extract(64 * i + 63, 64 * i, eir.as_bv(v, 384))))
+
+    def ext(I_, name, args, site):
+        k = name.replace("embedded_pairing_core_arch_x86_64_", "")
+        if k in ("bigint_384_subtract", "bigint_384_add"):
+            x, y = eir.as_bv(rd(args[1]), 384), eir.as_bv(rd(args[2]), 384)
+            if k.endswith("subtract"):
+                wr(args[0], x - y)
+                return eir.simp(z3.If(z3.ULT(x, y), z3.BitVecVal(1, 8), z3.BitVecVal(0, 8)))
+            t = z3.ZeroExt(1, x) + z3.ZeroExt(1, y)
+            wr(args[0], z3.Extract(383, 0, t))
+            return eir.simp(z3.ZeroExt(7, z3.Extract(384, 384, t)))
+        if k == "bigint_384_multiply2":
+            x = eir.as_bv(rd(args[1]), 384)
+            wr(args[0], x << 1)
+            return eir.simp(z3.ZeroExt(63, z3.Extract(383, 383, x)))
+        raise ExecError("unsupported", "unexpected external call " + name)
+    I.external_handler = ext
+
+
 def ob_hash_reduce(cfg, fld):
     prog = prog_for(cfg)
     N = 384 if fld == "Fq" else 256
@@ -829,6 +859,7 @@ def register(chk):
 
 
 def main(argv=None):
+    sys.modules.setdefault("c02", sys.modules[__name__])      # helpers `import c02`: they must see this module instance (its program cache)
     chk = Check("C02", "proof", argv)
     chk.replayer = replay_kernel
     sys.path.insert(0, os.path.dirname(os.path.abspath(__file__)))
